@@ -23,6 +23,17 @@ ROOT = os.path.dirname(HERE)
 REPO = os.environ.get('TTSA_REPO', '/repo')
 
 
+def _compiles(d):
+    for fn in os.listdir(os.path.join(d, 'trees')):
+        if fn.endswith('.py'):
+            try:
+                with open(os.path.join(d, 'trees', fn), encoding='utf-8') as fh:
+                    compile(fh.read(), fn, 'exec')
+            except SyntaxError:
+                return False
+    return True
+
+
 def one(seed):
     d = tempfile.mkdtemp(prefix='ttsa-stack-')
     try:
@@ -40,6 +51,14 @@ def one(seed):
             with open(p) as f:
                 subprocess.run(['patch', '-p1', '-s', '-f', '-d', d], stdin=f, stdout=subprocess.DEVNULL,
                                stderr=subprocess.DEVNULL)
+            if not _compiles(d):
+                # applied with fuzz into something that is not Python any more: take it out again
+                with open(p) as f:
+                    subprocess.run(['patch', '-p1', '-s', '-f', '-R', '-d', d], stdin=f, stdout=subprocess.DEVNULL,
+                                   stderr=subprocess.DEVNULL)
+                if not _compiles(d):
+                    return seed, len(applied), 0, 0, ['stack of patches does not compile after %s' % p], 2
+                continue
             applied.append(os.path.basename(os.path.dirname(p)))
         for junk in glob.glob(os.path.join(d, 'trees', '*.orig')) + glob.glob(os.path.join(d, 'trees', '*.rej')):
             os.remove(junk)
@@ -100,6 +119,11 @@ def stacked_copy(seed):
                 continue
         with open(p) as f:
             subprocess.run(['patch', '-p1', '-s', '-f', '-d', d], stdin=f, stdout=subprocess.DEVNULL, stderr=subprocess.DEVNULL)
+        if not _compiles(d):
+            with open(p) as f:
+                subprocess.run(['patch', '-p1', '-s', '-f', '-R', '-d', d], stdin=f, stdout=subprocess.DEVNULL,
+                               stderr=subprocess.DEVNULL)
+            continue
         n += 1
     for junk in glob.glob(os.path.join(d, 'trees', '*.orig')) + glob.glob(os.path.join(d, 'trees', '*.rej')):
         os.remove(junk)
